@@ -47,6 +47,8 @@ def alphabet(m):
           dict(op='put_att', v=-1, name='g', xtype=D.NC_INT, vals=[5, 6]),               # same size
           dict(op='put_att', v=-1, name='g', xtype=D.NC_SHORT, vals=[9]),                # smaller, other type
           dict(op='put_att', v=-1, name='g', xtype=D.NC_INT, vals=[1, 2, 3]),            # larger
+          dict(op='put_att', v=-1, name='g', xtype=D.NC_DOUBLE, vals=[1.5, 2.5]),        # same element count, wider type: larger
+          dict(op='put_att', v=-1, name='g', xtype=D.NC_BYTE, vals=[1, 2, 3, 4, 5, 6, 7]),  # more elements, narrower type: not larger
           dict(op='del_att', v=-1, name='g'),
           dict(op='rename_var', v=0, name='f'), dict(op='rename_var', v=0, name='fxlonger'),
           dict(op='rename_dim', d=1, name='y'), dict(op='rename_dim', d=1, name='xlonger'),
